@@ -127,3 +127,40 @@ func VerifC11Authorisation() {
 		vAssert(len(recs) == 1 && recs[0] == "first", "C11/records-change-only-by-authorised-calls")
 	}
 }
+
+// C11 with a name whose label is ALSO the name of a registered TLD (the layout of the FS chain, where the TLD
+// "container" coexists with the contract name container.neofs): TLDs com and zone, o1 owns zone.com and com.zone.
+// A third-level name under either can be registered only with the witness of the owner of the directly
+// enclosing name, whatever other names and roots exist; a refused attempt changes nothing.
+func VerifC11LabelIsTLD() {
+	vDeploy("nns", []any{[]any{"com", "ops@nspcc.io"}, []any{"zone", "ops@nspcc.io"}})
+	o1, o3 := vAcct("o1"), vAcct("o3")
+	parent := "zone.com"
+	if vParam(0) == 1 {
+		parent = "com.zone"
+	}
+	vSign(o1, true)
+	ok, r := vInvoke("nns", "register", parent, o1, "e@nspcc.io", 1, 2, 100000, 3)
+	vAssume(ok && r.(bool))
+	sO1, sO3 := vBool("o1Signs"), vBool("o3Signs")
+	forO1 := vBool("registeredForTheParentOwner")
+	newOwner := o3
+	if forO1 {
+		newOwner = o1
+	}
+	vSign(o1, sO1)
+	vSign(o3, sO3)
+	vSign(vAcct("stranger"), true)
+	done, res := vInvoke("nns", "register", "x."+parent, newOwner, "e@nspcc.io", 1, 2, 1000, 3)
+	took := done && res.(bool)
+	// the parent's owner must witness; so must the account the name is registered for
+	want := sO1 && (forO1 || sO3)
+	vAssert(took == want, "C11/method-takes-effect-exactly-with-the-documented-authority")
+	vRequire(took, "sub-name-registered")
+	if !took {
+		vCoverIf(sO3 && !sO1, "stranger-refused-under-a-name-whose-label-is-a-TLD")
+		vAssert(!vEffects(), "C11/unauthorised-attempt-leaves-the-state-unchanged")
+		okA, av := vRead("nns", "isAvailable", "x."+parent)
+		vAssert(okA && av.(bool), "C11/unauthorised-attempt-leaves-the-state-unchanged")
+	}
+}
